@@ -7,7 +7,10 @@ INJECT = {
     "src/varint.rs": "varint_h.rs",
     "src/metadata.rs": "metadata_h.rs",
     "src/block.rs": ["block_h.rs", ("ac_model.rs", "verif_ac")],
+    "src/block_writer.rs": "block_writer_h.rs",
     "src/reader/reader_cursor.rs": "cursor_h.rs",
+    "src/reader/range_iter.rs": "range_h.rs",
+    "src/reader/prefix_iter.rs": "prefix_h.rs",
 }
 
 GLOBAL_ASSUMPTIONS = [
@@ -73,8 +76,10 @@ HARNESSES = [
 ]
 
 # ------------------------------------------------------------------------------------------- L2 block layer
-_BLOCK_FUNCS = ["BlockWriter::insert", "BlockWriter::finish", "Block::new", "Block::read_from", "compression::decompress(None)",
-                "std Read::read_to_end/Take over &[u8]", "Block::entry_at", "varint_decode32", "varint_encode32"]
+_BLOCK_FUNCS_NEW = ["Block::new", "Block::read_from", "compression::decompress(None)", "std Read::read_to_end/Take over &[u8]",
+                    "Block::entry_at", "Block::payload", "varint_decode32"]
+_BLOCK_FUNCS_CUR = ["Block::entry_at", "Block::payload", "Block::index_offsets", "varint_decode32", "varint_length_packed",
+                    "(block bytes from the independent reference encoder; its equality with BlockWriter's output is block_writer::verif_h::c09_block_ref_*)"]
 _BLOCK_BOUNDS = ("n <= 3 entries; keys symbolic length 0..=2 strictly ascending; values symbolic length 0..=2; probe symbolic "
                  "length 0..=3; every abstract pre-position (unpositioned, on entry i, End); interval %d; unwind 10")
 _OPFN = {"current": "BlockCursor::current", "first": "BlockCursor::move_on_first", "last": "BlockCursor::move_on_last",
@@ -86,27 +91,552 @@ for _op, _props, _ivs in [("current", ["C03"], [2]), ("first", ["C03"], [1, 2, 8
     for _iv in _ivs:
         _pre = "c02" if _op in ("ge", "le") else "c03"
         HARNESSES.append(H("block::verif_h::%s_block_%s_i%d" % (_pre, _op, _iv), _props,
-                           tier="quick" if _iv == 2 else "thorough", kind="D+S", layer="L2", timeout=1500,
-                           decides="AC ⊑ BlockCursor for `%s`: from every abstract pre-state of a real block, the real result equals the "
-                                   "array-cursor model's (exact ceiling/floor/adjacent entry or None) and the post-position matches" % _op,
-                           functions=_BLOCK_FUNCS + [_OPFN[_op]], bounds=_BLOCK_BOUNDS % _iv,
+                           tier="thorough", kind="D+S", layer="L2", timeout=2400, mem="medium",
+                           decides="AC ⊑ BlockCursor for `%s`: from every abstract pre-state of a real block (entry LENGTHS symbolic too), the real result "
+                                   "equals the array-cursor model's (exact ceiling/floor/adjacent entry or None) and the post-position matches" % _op,
+                           functions=_BLOCK_FUNCS_CUR + [_OPFN[_op]], bounds=_BLOCK_BOUNDS % _iv,
                            outside="keys > 2 bytes, > 3 entries per block, intervals other than 1/2/8"))
-for _iv in (1, 2, 8):
-    HARNESSES.append(H("block::verif_h::c01_block_new_i%d" % _iv, ["C01", "C09", "C14"], tier="quick" if _iv == 2 else "thorough",
-                       kind="D", layer="L2", timeout=1500,
-                       decides="Block::new over `len ‖ block` written by BlockWriter recovers payload size, the offset table (every "
-                               "interval-th entry, first 0) and every entry via entry_at with exact next offsets",
-                       functions=_BLOCK_FUNCS, bounds=_BLOCK_BOUNDS % _iv))
-HARNESSES.append(H("block::verif_h::c17_block_borrows", ["C17"], kind="H", layer="L2", timeout=1500,
+HARNESSES.append(H("block::verif_h::c17_block_borrows", ["C17"], kind="H", layer="L2", timeout=2400, mem="medium", tier="thorough",
                    decides="slices returned by the >=-seek (incl. the 'static transmute) lie inside the live block buffer and are readable",
-                   functions=_BLOCK_FUNCS + [_OPFN["ge"]], bounds=_BLOCK_BOUNDS % 2))
+                   functions=_BLOCK_FUNCS_CUR + [_OPFN["ge"]], bounds=_BLOCK_BOUNDS % 2))
+
+# fixed-length instances (entry count and every key/value length concrete; contents, pre-position and probe symbolic): fast,
+# so many length patterns and all three intervals run in the quick tier
+LEN_PATTERNS = [  # (n, key lengths, value lengths)
+    (0, [0, 0, 0], [0, 0, 0]),
+    (1, [0, 0, 0], [0, 0, 0]),
+    (1, [2, 0, 0], [2, 0, 0]),
+    (2, [0, 1, 0], [1, 0, 0]),
+    (2, [2, 2, 0], [2, 2, 0]),
+    (3, [0, 1, 2], [2, 0, 1]),
+    (3, [1, 2, 2], [0, 1, 2]),
+    (3, [2, 2, 2], [1, 1, 1]),
+    (3, [1, 1, 1], [0, 0, 0]),
+    (3, [2, 1, 1], [2, 2, 2]),
+    (3, [0, 2, 2], [0, 2, 0]),
+]
+GEN_BLOCK = []
+_OPC = {"current": "OP_CURRENT", "first": "OP_FIRST", "last": "OP_LAST", "next": "OP_NEXT", "prev": "OP_PREV", "ge": "OP_GE", "le": "OP_LE"}
+for _pi, (_n, _kl, _vl) in enumerate(LEN_PATTERNS):
+    for _iv in (1, 2, 8):
+        _q = (_pi in (5, 6) and _iv == 2) or (_pi == 7 and _iv == 1) or (_pi == 8 and _iv == 8) or (_pi in (0, 3) and _iv == 2)
+        _nm = "c01_block_newf_i%d_p%d" % (_iv, _pi)
+        GEN_BLOCK.append("block_new_fixed!(%s, %d, %d, %s, %s);" % (_nm, _iv, _n, _kl, _vl))
+        HARNESSES.append(H("block::verif_h::" + _nm, ["C01", "C09", "C14", "C02", "C03"],
+                           tier={"C01": "quick" if _q else "thorough", "C09": "quick" if _q else "thorough", "*": "thorough"},
+                           kind="D", layer="L2", timeout=900,
+                           decides="ac_block_new ⊑ Block::new: loading `len ‖ block` (independent encoder) through &[u8] with the real decompress(None), "
+                                   "std read_to_end and footer parsing recovers payload size, offset table (every interval-th entry, first 0) and "
+                                   "every entry via entry_at with exact next offsets, consuming exactly the block",
+                           functions=_BLOCK_FUNCS_NEW, bounds="n=%d entries, key lengths %s, value lengths %s (concrete), contents symbolic, interval %d" % (_n, _kl[:_n], _vl[:_n], _iv),
+                           outside="symbolic block lengths (std read_to_end over a symbolic-length source exceeds 20 GB)"))
+        if _n == 0 and _iv != 2:
+            continue
+        for _op in ("first", "last", "next", "prev", "ge", "le", "current"):
+            if _op == "current" and _iv != 2:
+                continue
+            _pre = "c02" if _op in ("ge", "le") else "c03"
+            _nm = "%s_blockf_%s_i%d_p%d" % (_pre, _op, _iv, _pi)
+            GEN_BLOCK.append("block_op_fixed!(%s, %s, %d, %d, %s, %s);" % (_nm, _OPC[_op], _iv, _n, _kl, _vl))
+            _props = ["C02", "C03"] if _op in ("ge", "le") else (["C03", "C01"] if _op in ("next", "prev", "last") else ["C03"])
+            _qq = _q and _n >= 3
+            HARNESSES.append(H("block::verif_h::" + _nm, _props, tier={_props[0]: "quick" if _qq else "thorough", "*": "thorough"}, kind="D+S", layer="L2", timeout=1200,
+                               decides="AC ⊑ BlockCursor for `%s` over a real encoded block: from every abstract pre-position the real result equals the "
+                                       "array-cursor model's (exact ceiling/floor/adjacent entry or None) and the post-position matches" % _op,
+                               functions=_BLOCK_FUNCS_CUR + [_OPFN[_op]],
+                               bounds="n=%d entries, key lengths %s, value lengths %s (concrete), contents symbolic and strictly ascending, pre-position "
+                                      "symbolic, probe symbolic length 0..=3, interval %d; unwind 10" % (_n, _kl[:_n], _vl[:_n], _iv)))
+
+
+def tier_of(h, pid):
+    t = h["tier"]
+    if isinstance(t, dict):
+        return t.get(pid, t.get("*", "thorough"))
+    return t
 
 
 def harnesses_for(pid, tier, seed=0):
     hs = [h for h in HARNESSES if pid in h["props"]]
     if tier == "quick":
-        hs = [h for h in hs if h["tier"] == "quick"]
+        hs = [h for h in hs if tier_of(h, pid) == "quick"]
     return hs
+
+
+# ------------------------------------------------------------------------------------------- L3 glue (generated harnesses)
+def D(*idx):
+    return ("D", list(idx))
+
+
+def I(*children):
+    return ("I", list(children))
+
+
+# name -> (levels, tree). Trees the real writer can produce: the root has <= 1 entry when levels >= 1, level 1 is a single
+# block, only levels >= 2 are split. Leaves D(..) list indices into the sorted entry table.
+LAYOUT_TREES = {
+    "e0": (0, I()),
+    "e2": (2, I()),
+    "l0s": (0, I(D(0))),
+    "l0a": (0, I(D(0, 1), D(2, 3))),
+    "l0b": (0, I(D(0), D(1, 2), D(3))),
+    "l1": (1, I(I(D(0, 1), D(2), D(3)))),
+    "l2a": (2, I(I(I(D(0, 1), D(2)), I(D(3, 4))))),
+    "l2b": (2, I(I(I(D(0)), I(D(1), D(2, 3))))),
+    "l2c": (2, I(I(I(D(0, 1)), I(D(2, 3)), I(D(4))))),
+    "l3": (3, I(I(I(I(D(0)), I(D(1))), I(I(D(2), D(3)))))),
+}
+
+
+def tree_str(t):
+    if t[0] == "D":
+        return "D(%s)" % ",".join(str(i) for i in t[1])
+    return "I(%s)" % ",".join(tree_str(c) for c in t[1])
+
+
+def tree_entries(t):
+    if t[0] == "D":
+        return list(t[1])
+    out = []
+    for c in t[1]:
+        out += tree_entries(c)
+    return out
+
+
+LAYOUTS = {}  # name -> (rust const, levels, n entries, description)
+for _i, (_name, (_lv, _tree)) in enumerate(LAYOUT_TREES.items()):
+    LAYOUTS[_name] = ("LAY_%s" % _name.upper(), _lv, len(tree_entries(_tree)), "levels %d: %s" % (_lv, tree_str(_tree)))
+
+
+def layout_numbering(tree):
+    """Block ids in the order build_layout creates them (DFS post-order). -> (root id, per-entry paths, blocks per level)
+    path[i] = [(block, pos) for index level 0..levels] + [(data block, pos)]"""
+    counter = [0]
+    info = {}
+
+    def walk(t, depth, trail):
+        # trail: list of (parent node key, position in parent)
+        if t[0] == "D":
+            bid = counter[0]
+            counter[0] += 1
+            info[id(t)] = bid
+            return bid
+        for c in t[1]:
+            walk(c, depth + 1, trail)
+        bid = counter[0]
+        counter[0] += 1
+        info[id(t)] = bid
+        return bid
+    root = walk(tree, 0, [])
+    paths = {}
+    levels_blocks = {}
+
+    def walk2(t, depth, trail):
+        levels_blocks.setdefault(depth, []).append(info[id(t)])
+        if t[0] == "D":
+            for pos, e in enumerate(t[1]):
+                paths[e] = trail + [(info[id(t)], pos)]
+            return
+        for pos, c in enumerate(t[1]):
+            walk2(c, depth + 1, trail + [(info[id(t)], pos)])
+    walk2(tree, 0, [])
+    return root, paths, levels_blocks
+
+
+def layout_rust():
+    """Rust source of the layout constants, build_layout() and the path tables, generated from LAYOUT_TREES."""
+    out = ["// generated by registry.py from LAYOUT_TREES (the native replayer builds real files from the same trees)"]
+    for i, name in enumerate(LAYOUT_TREES):
+        out.append("pub(crate) const %s: u8 = %d; // %s" % (LAYOUTS[name][0], i, LAYOUTS[name][3]))
+    out.append("pub(crate) fn build_layout(id: u8, minlen: usize, maxlen: usize) -> Layout {")
+    out.append("    match id {")
+    names = list(LAYOUT_TREES)
+    for i, name in enumerate(names):
+        levels, tree = LAYOUT_TREES[name]
+        n = len(tree_entries(tree))
+        body = []
+        counter = [0]
+
+        def emit(t):
+            if t[0] == "D":
+                v = "b%d" % counter[0]
+                counter[0] += 1
+                idx = t[1]
+                assert idx == list(range(idx[0], idx[0] + len(idx)))
+                body.append("let %s = data_block(e + %d, %d);" % (v, idx[0], len(idx)))
+                return v
+            kids = [emit(c) for c in t[1]]
+            assert len(kids) <= 4
+            v = "b%d" % counter[0]
+            counter[0] += 1
+            body.append("let %s = index_block(&[%s], %d);" % (v, ", ".join(kids + ["0"] * (4 - len(kids))), len(kids)))
+            return v
+        root = emit(tree)
+        pat = "_" if i == len(names) - 1 else LAYOUTS[name][0]
+        out.append("        %s => {" % pat)
+        out.append("            let e = add_entries(%d, minlen, maxlen);" % n if n else "            let e = 0usize; let _ = (e, minlen, maxlen);")
+        out += ["            " + l for l in body]
+        out.append("            Layout { id, root: %s, levels: %d, n: %d }" % (root, levels, n))
+        out.append("        }")
+    out.append("    }")
+    out.append("}")
+    # path tables: PATH_<L>[entry][level] = (block, pos); level levels+1 = data block
+    out.append("pub(crate) const MAXDEPTH: usize = 5;")
+    for name in names:
+        levels, tree = LAYOUT_TREES[name]
+        n = len(tree_entries(tree))
+        root, paths, lb = layout_numbering(tree)
+        rows = []
+        for e in range(max(n, 1)):
+            p = paths.get(e, [])
+            p = p + [(0, 0)] * (5 - len(p))
+            rows.append(("[" + ", ".join("%d" % bp[0] for bp in p) + "]", "[" + ", ".join("%d" % bp[1] for bp in p) + "]"))
+        out.append("const PATHB_%s: [[usize; MAXDEPTH]; %d] = [%s];" % (name.upper(), max(n, 1), ", ".join(r[0] for r in rows)))
+        out.append("const PATHP_%s: [[usize; MAXDEPTH]; %d] = [%s];" % (name.upper(), max(n, 1), ", ".join(r[1] for r in rows)))
+        lrows = []
+        for d in range(5):
+            blks = lb.get(d, []) if n else ([root] if d == 0 else [])
+            lrows.append((len(blks), "[%s]" % ", ".join(str(x) for x in (blks + [0] * 8)[:8])))
+        out.append("const LEVELN_%s: [usize; MAXDEPTH] = [%s];" % (name.upper(), ", ".join(str(r[0]) for r in lrows)))
+        out.append("const LEVELB_%s: [[usize; 8]; MAXDEPTH] = [%s];" % (name.upper(), ", ".join(r[1] for r in lrows)))
+    out.append("/// (block id, position) at index level `lvl` (lvl = levels + 1: the data block) on the path to entry i")
+    out.append("pub(crate) fn path_of(layout: u8, i: usize, lvl: usize) -> (usize, usize) {")
+    out.append("    match layout {")
+    for i, name in enumerate(names):
+        pat = "_" if i == len(names) - 1 else LAYOUTS[name][0]
+        out.append("        %s => (PATHB_%s[i][lvl], PATHP_%s[i][lvl])," % (pat, name.upper(), name.upper()))
+    out.append("    }\n}")
+    out.append("/// (number of blocks, block ids) of depth `lvl` (0 = root .. levels + 1 = data blocks)")
+    out.append("pub(crate) fn level_blocks(layout: u8, lvl: usize) -> (usize, [usize; 8]) {")
+    out.append("    match layout {")
+    for i, name in enumerate(names):
+        pat = "_" if i == len(names) - 1 else LAYOUTS[name][0]
+        out.append("        %s => (LEVELN_%s[lvl], LEVELB_%s[lvl])," % (pat, name.upper(), name.upper()))
+    out.append("    }\n}")
+    return "\n".join(out) + "\n"
+
+
+_OPRS = {"first": "Op::First", "last": "Op::Last", "next": "Op::Next", "prev": "Op::Prev", "reset": "Op::Reset",
+         "current": "Op::Current", "clone": "Op::CloneSwitch"}
+_FORK = {"first": "F_FIRST", "last": "F_LAST", "next": "F_NEXT", "prev": "F_PREV", "current": "F_CURRENT"}
+_ABBR = {"first": "F", "last": "L", "next": "n", "prev": "p", "reset": "R", "current": "c", "clone": "K"}
+
+
+def _op_rs(op):
+    if op in _OPRS:
+        return _OPRS[op]
+    kind, arg = op.split(":")
+    if kind == "fork":
+        return "Op::Fork(%s)" % _FORK[arg]
+    sel = "Q_SYM" if arg == "sym" else arg
+    return "Op::%s(%s)" % ({"ge": "Ge", "le": "Le", "eq": "Eq"}[kind], sel)
+
+
+def _op_abbr(op):
+    if op in _ABBR:
+        return _ABBR[op]
+    kind, arg = op.split(":")
+    if kind == "fork":
+        return "Y" + _ABBR[arg]
+    return {"ge": "G", "le": "E", "eq": "Q"}[kind] + ("s" if arg == "sym" else arg)
+
+
+def schema_harness(prefix, layout, ops, minlen=1, maxlen=1, probe_max=2, unwind=None):
+    """-> (fn name, rust source)"""
+    name = "%s_%s_%s" % (prefix, layout, "".join(_op_abbr(o) for o in ops))
+    const, levels, n, _ = LAYOUTS[layout]
+    if unwind is None:
+        unwind = max(9, len(ops) + 2)  # MAXE + 1 = 9 for the table loops; ops loop
+    src = "glue_harness!(%s, %d, {\n    let ops = [%s];\n    run_schema(%s, &ops, %d, %d, %d);\n});\n" % (
+        name, unwind, ", ".join(_op_rs(o) for o in ops), const, minlen, maxlen, probe_max)
+    return name, src
+
+
+GLUE_FUNCS = ["ReaderCursor::new/reset/current/move_on_first/move_on_last/move_on_next/move_on_prev",
+              "ReaderCursor::move_on_key_greater_than_or_equal_to/_lower_than_or_equal_to/_equal_to",
+              "ReaderCursor::next_block_from_index/prev_block_from_index", "IndexBlockCursor::iter_index_blocks",
+              "IndexBlockCursor::recursive_index_block", "IndexBlockCursor::initial_index_blocks", "Clone for ReaderCursor",
+              "Reader::into_cursor"]
+GLUE_STUBS = ["Block::new -> ac_block_new (abstract block = id; discharged by block::verif_h::c01_block_new_*)",
+              "BlockCursor::{current,move_on_first,move_on_last,move_on_next,move_on_prev,move_on_key_lower_than_or_equal_to,"
+              "move_on_key_greater_than_or_equal_to} -> array-cursor model ac_step (discharged against the real BlockCursor over "
+              "real blocks by block::verif_h::c0{2,3}_block_*)",
+              "source = ModelFile (Read+Seek returning the seek position; counts loads/seeks)"]
+
+GEN_CURSOR = []  # (fn name, source)
+
+
+def G(prefix, layout, ops, props, tier="quick", mem="light", timeout=1500, **kw):
+    name, src = schema_harness(prefix, layout, ops, **{k: kw.pop(k) for k in ("minlen", "maxlen", "probe_max", "unwind") if k in kw})
+    GEN_CURSOR.append((name, src))
+    HARNESSES.append(H("reader::reader_cursor::verif_h::" + name, props, tier=tier, mem=mem, timeout=timeout, kind="H", layer="L3",
+                       replay="native",
+                       decides="history [%s] on a fresh cursor over %s: every result equals the entry determined by the sorted content "
+                               "and the logical position; loads per op <= 2*(levels+2), each preceded by one absolute seek" % (
+                                   ", ".join(ops), LAYOUTS[layout][3]),
+                       functions=GLUE_FUNCS, stubs=GLUE_STUBS, schema=ops, layout=layout,
+                       bounds="layout fixed (fan-out <= 3, <= 2 entries per data block), keys symbolic 1 byte strictly ascending, "
+                              "one symbolic probe of length 0..=2; unwind from table size", **kw))
+    return name
+
+
+# ---- history schemas (H). Quick for C03: the block-crossing patterns on a layout with two blocks at a non-root level.
+Q3 = {"C03": "quick", "*": "thorough"}
+G("c03_hist", "l2a", ["first", "first", "next", "next", "next", "current", "first", "current"], ["C03", "C16"], tier={"C03": "quick", "C16": "quick"})
+G("c03_hist", "l2a", ["last", "last", "prev", "prev", "current", "last"], ["C03", "C16"], tier=Q3)
+G("c03_hist", "l2a", ["first", "next", "next", "next", "first", "ge:4"], ["C03", "C16"], tier=Q3)
+G("c03_hist", "l2a", ["last", "prev", "prev", "last", "le:0"], ["C03", "C16"], tier=Q3)
+G("c03_hist", "l2a", ["first", "next", "next", "next", "ge:sym"], ["C03", "C02", "C16"], tier=Q3)
+G("c03_hist", "l2a", ["last", "prev", "prev", "le:sym"], ["C03", "C02", "C16"], tier=Q3)
+G("c03_hist", "l2a", ["first", "next", "clone", "next", "next", "fork:next"], ["C03", "C16"], tier=Q3, mem="medium")
+G("c03_hist", "l2a", ["last", "clone", "prev", "prev", "fork:prev", "reset", "next"], ["C03", "C16"], tier=Q3, mem="medium")
+# base cases of the induction and reset
+G("c03_hist", "l2a", ["next", "current", "reset", "prev", "current", "reset", "current"], ["C03", "C16"], tier=Q3)
+G("c03_hist", "e2", ["next", "prev", "first", "last", "ge:sym", "reset", "le:sym"], ["C03", "C02", "C01"], tier={"C03": "quick", "C01": "quick", "*": "thorough"})
+G("c03_hist", "e0", ["first", "last", "eq:sym", "next"], ["C03", "C02", "C01"], tier="thorough")
+# thorough: the same patterns on the other layouts, deeper trees, more crossings
+for _lay, _n in (("l2b", 4), ("l2c", 5), ("l3", 4), ("l1", 4), ("l0b", 4)):
+    G("c03_hist", _lay, ["first", "first"] + ["next"] * (_n - 1) + ["first", "ge:%d" % (_n - 1), "ge:0"], ["C03", "C16"], tier="thorough")
+    G("c03_hist", _lay, ["last", "last"] + ["prev"] * (_n - 1) + ["last", "le:0", "le:%d" % (_n - 1)], ["C03", "C16"], tier="thorough")
+    G("c03_hist", _lay, ["first"] + ["next"] * (_n - 1) + ["first", "ge:%d" % (_n - 1), "prev", "first"], ["C03", "C16"], tier="thorough")
+    G("c03_hist", _lay, ["ge:%d" % (_n // 2), "clone", "next", "fork:next", "fork:prev"], ["C03", "C16"], tier="thorough", mem="medium")
+G("c03_hist", "l2c", ["first", "next", "next", "next", "next", "first", "ge:2", "ge:4", "ge:0"], ["C03", "C16"], tier="thorough")
+G("c03_hist", "l2c", ["last", "prev", "prev", "prev", "prev", "last", "le:2", "le:0", "le:4"], ["C03", "C16"], tier="thorough")
+
+# ---- C02: one seek with a symbolic probe on a fresh / reset cursor, every layout
+for _lay in LAYOUT_TREES:
+    for _op in ("ge", "le", "eq"):
+        _t = "quick" if ((_lay in ("l2a", "l0b") and _op != "le") or (_lay == "e2" and _op == "le")) else "thorough"
+        G("c02_seek", _lay, ["%s:sym" % _op], ["C02", "C16"] + (["C10"] if _lay.startswith("l0") else []), tier={"C02": _t, "*": "thorough"},
+          mem="heavy" if (_op == "le" and LAYOUTS[_lay][2] > 1) else "light", timeout=3600 if _op == "le" else 1500)
+G("c02_seek", "l2a", ["first", "next", "reset", "ge:sym"], ["C02", "C03"], tier="thorough")
+G("c02_seek", "l2a", ["last", "reset", "le:sym"], ["C02", "C03"], tier="thorough")
+# byte-string classes: keys of length 0..=2, probe 0..=3 (prefix / extension / empty / longer)
+for _lay in ("l0a", "l1"):
+    for _op in ("ge", "le", "eq"):
+        G("c02_seekb", _lay, ["%s:sym" % _op], ["C02"], tier={"C02": "quick" if (_lay == "l0a" and _op == "ge") else "thorough"}, minlen=0, maxlen=2, probe_max=3,
+          mem="heavy" if _op == "le" else "medium", timeout=3600 if _op == "le" else 1500)
+
+GEN_RANGE, GEN_PREFIX = [], []
+CONTRACT_STUBS = ["ReaderCursor::move_on_key_greater_than_or_equal_to -> its contract (ceiling; RI-strong on Some, some RI-weak state on None), "
+                  "discharged by c02_seek_* / c03_step_ge_*", "ReaderCursor::move_on_key_lower_than_or_equal_to -> its contract (floor), "
+                  "discharged by c02_lesplit_* (real <= seek over the >= contract) and c02_seek_*_Es"]
+ITER_FUNCS = {"range": ["RangeIter::new", "RangeIter::next", "range_iter::map_bound", "range_iter::end_contains"],
+              "revrange": ["RevRangeIter::new", "RevRangeIter::next", "range_iter::map_bound", "range_iter::start_contains"],
+              "prefix": ["PrefixIter::new", "PrefixIter::next"],
+              "revprefix": ["RevPrefixIter::new", "RevPrefixIter::next", "prefix_iter::move_on_last_prefix", "prefix_iter::advance_key"]}
+
+
+_RC = "crate::reader::reader_cursor::ReaderCursor::"
+
+
+def contract_stubs(ge=None, le=None):
+    """extra kani::stub metas replacing the >= / <= seek by one outcome of its contract"""
+    out = []
+    if ge:
+        out.append("kani::stub(%smove_on_key_greater_than_or_equal_to, %sge_contract_%s)" % (_RC, _RC, ge))
+    if le:
+        out.append("kani::stub(%smove_on_key_lower_than_or_equal_to, %sle_contract_%s)" % (_RC, _RC, le))
+    return "[" + ", ".join(out) + "]"
+
+
+def GI(mode, layout, props, form="first", tier="quick", mem="light", timeout=1800, minlen=1, maxlen=1, probe_max=2, unwind=10, contract=None):
+    """contract: None = real seeks; "some"/"none" = the initial seek replaced by that outcome of its contract"""
+    rev = "true" if mode.startswith("rev") else "false"
+    is_range = "range" in mode
+    pre = "c04" if is_range else "c05"
+    name = "%s_%s_%s%s_%s_k%d%d_p%d" % (pre, mode, form, ("c" + contract) if contract else "", layout, minlen, maxlen, probe_max)
+    if contract:
+        macro = "glue_harness_with"
+        extra = contract_stubs(le=contract) if rev == "true" else contract_stubs(ge=contract)
+    else:
+        macro, extra = "glue_harness", None
+    L = LAYOUTS[layout][0]
+    args = "%s, %s, %d, %d, %d" % (L, rev, minlen, maxlen, probe_max)
+    if form == "first":
+        args += ", " + {None: "None", "some": "Some(true)", "none": "Some(false)"}[contract]
+    if form == "whole":
+        src = "glue_harness!(%s, %d, {\n    %s(%s);\n});\n" % (name, unwind, "range_check" if is_range else "prefix_check", args)
+    else:
+        fn = ("range_" if is_range else "prefix_") + form
+        if is_range:
+            covers = ["f.ka == 2 && f.kb == 2", "f.expect.is_none()", "f.expect.is_some() && f.ka == 0", "f.expect.is_some() && f.kb == 0"]
+            if form == "first":
+                covers += ["f.ka != 0 && f.kb != 0 && f.ra > f.rb", "f.ka == 1 && f.kb == 1 && f.ra == f.rb && f.expect.is_some()"]
+                if rev == "false":
+                    covers += ["f.ka == 2 && f.ra == rank(key_of(0))", "f.kb == 2 && f.rb < rank(key_of(0))"]
+                else:
+                    covers += ["f.kb == 2 && f.rb == rank(key_of(f.n - 1))", "f.ka == 2 && f.ra > rank(key_of(f.n - 1))"]
+            else:
+                covers += ["f.expect.is_none() && f.i > 0 && f.i + 1 < f.n"]
+        else:
+            covers = ["f.plen == 0", "f.expect.is_none()", "f.expect.is_some() && f.plen >= 1"]
+            if form == "first":
+                covers += ["f.expect.is_none() && f.plen >= 1 && f.pr < rank(key_of(0))", "f.expect.is_none() && f.pr > rank(key_of(f.n - 1))",
+                           "f.plen >= 1 && f.last_byte == 0xFF", "f.expect.is_some() && f.pr == rank(key_of(f.expect.unwrap()))"]
+                if probe_max >= 3:
+                    covers += ["f.plen == 3"]
+        if contract == "none":
+            covers = ["f.expect.is_none()"]
+        elif contract == "some":
+            covers = [c for c in covers if "is_none" not in c or "is_some" in c] + ["f.expect.is_some()"]
+        body = "    let f = %s(%s);\n%s    let _ = &f;\n" % (fn, args, "".join("    kani::cover!(%s);\n" % c for c in covers))
+        if extra:
+            src = "%s!(%s, %d, %s, {\n%s});\n" % (macro, name, unwind, extra, body)
+        else:
+            src = "%s!(%s, %d, {\n%s});\n" % (macro, name, unwind, body)
+    (GEN_RANGE if is_range else GEN_PREFIX).append((name, src))
+    mod = "reader::range_iter::verif_h::" if is_range else "reader::prefix_iter::verif_h::"
+    what = ("in-range entries for symbolic bound kinds {Unbounded,Included,Excluded}^2 and symbolic bound strings (no ordering assumed)"
+            if is_range else "entries whose key starts with the symbolic prefix")
+    decides = {
+        "whole": "%s iterator over %s: from a fresh iterator to the first None the yielded entries are exactly the %s, in order" % (mode, LAYOUTS[layout][3], what),
+        "first": "%s iterator over %s, FIRST next() of a fresh iterator: yields the %s of the %s (or None), leaving the cursor in RI-strong on it" % (
+            mode, LAYOUTS[layout][3], "last" if rev == "true" else "first", what),
+        "step": "%s iterator over %s, any LATER next(): from every state whose cursor sits on the entry yielded last, yields the adjacent entry iff it "
+                "belongs to the %s, else None (with `first` this is an induction over the whole iteration)" % (mode, LAYOUTS[layout][3], what),
+    }[form]
+    HARNESSES.append(H(mod + name, props, tier=tier, mem=mem, timeout=timeout, kind={"whole": "H", "first": "H", "step": "S"}[form], layer="L3",
+                       replay="native", mode=mode, layout=layout,
+                       vec_order=["entries", "kind", "kind", "probe", "probe"] if is_range else ["entries", "probe"],
+                       decides=decides, functions=ITER_FUNCS[mode] + GLUE_FUNCS, stubs=GLUE_STUBS + (CONTRACT_STUBS if contract else []),
+                       assumes=["iteration = first call + later calls (induction); contiguity of the in-range / prefixed entries follows from sortedness"]
+                       if form != "whole" else [],
+                       bounds="keys symbolic length %d..=%d strictly ascending; bound/prefix strings symbolic length 0..=%d; layout fixed" % (minlen, maxlen, probe_max)))
+    return name
+
+
+HARNESSES.append(H("reader::range_iter::verif_h::c04_bounds_k", ["C04"], kind="K", layer="L0", timeout=900,
+                   decides="end_contains/start_contains equal the lexicographic definition for all three bound kinds",
+                   functions=["range_iter::end_contains", "range_iter::start_contains"],
+                   bounds="key and bound strings symbolic length 0..=3; unwind 5"))
+HARNESSES.append(H("reader::prefix_iter::verif_h::c05_advance_key", ["C05"], kind="K", layer="L0", timeout=900,
+                   decides="advance_key(p) is None iff p is empty/all 0xFF; otherwise it is the least upper bound of the keys with prefix p",
+                   functions=["prefix_iter::advance_key"], bounds="prefix length 0..=4, key length 0..=5, all symbolic; unwind 7"))
+for _mode in ("range", "revrange"):
+    GI(_mode, "l2a", ["C04"], form="step", probe_max=11)
+    GI(_mode, "l0b", ["C04"], form="step", tier="thorough", probe_max=11)
+    for _c in ("some", "none"):
+        GI(_mode, "l2a", ["C04"], form="first", contract=_c, probe_max=11)
+        GI(_mode, "l0b", ["C04"], form="first", contract=_c, tier="thorough", minlen=0, maxlen=2, probe_max=3)
+    GI(_mode, "l0a", ["C04"], form="first", tier="thorough", mem="heavy", timeout=3600)
+    GI(_mode, "l0s", ["C04"], form="whole", tier="thorough", mem="medium")
+    GI(_mode, "l2a", ["C04"], form="step", tier="thorough", minlen=0, maxlen=2, probe_max=3)
+for _mode in ("prefix", "revprefix"):
+    GI(_mode, "l2a", ["C05"], form="step", minlen=0, maxlen=2, probe_max=3)
+    GI(_mode, "l0b", ["C05"], form="step", tier="thorough", minlen=0, maxlen=2, probe_max=3)
+    for _c in ("some", "none"):
+        GI(_mode, "l2a", ["C05"], form="first", contract=_c, minlen=0, maxlen=2, probe_max=3)
+        GI(_mode, "l0b", ["C05"], form="first", contract=_c, tier="thorough", minlen=0, maxlen=2, probe_max=3)
+    GI(_mode, "l0a", ["C05"], form="first", tier="thorough", mem="heavy", timeout=3600, minlen=0, maxlen=2, probe_max=3)
+    GI(_mode, "l0s", ["C05"], form="whole", tier="thorough", mem="medium", minlen=0, maxlen=2, probe_max=3)
+
+
+_SOPS = {"first": "S_FIRST", "last": "S_LAST", "ge": "S_GE", "le": "S_LE", "eq": "S_EQ", "next": "S_NEXT", "prev": "S_PREV",
+         "current": "S_CURRENT", "clonenext": "S_CLONE_NEXT", "cloneprev": "S_CLONE_PREV"}
+
+
+def GS(op, layout, props, tier="quick", mem="light", timeout=1800, minlen=1, maxlen=1, probe_max=2, unwind=10, weak=False):
+    is_abs = op in ("first", "last", "ge", "le", "eq")
+    name = "c03_step_%s_%s%s" % (op, layout, "_weak" if weak else "")
+    L = LAYOUTS[layout][0]
+    n = LAYOUTS[layout][2]
+    if is_abs:
+        call = "step_abs(%s, %s, %d, %d, %d, %s)" % (L, _SOPS[op], minlen, maxlen, probe_max, "true" if weak else "false")
+        covers = ["f.fresh", "!f.fresh && f.expect.is_some()"]
+        if op in ("ge", "le", "eq") and n >= 2:
+            covers += ["!f.fresh && f.expect.is_none()", "f.qr == rank(key_of(1))", "f.qr > rank(key_of(0)) && f.qr < rank(key_of(1))",
+                       "f.expect == Some(f.n - 1)", "f.expect == Some(0)"]
+        if n >= 1:
+            covers += ["f.loads == 1", "f.loads as usize >= %d" % (LAYOUTS[layout][1] + 2)]
+    elif op in ("next", "prev"):
+        call = "step_move(%s, %s, %d, %d)" % (L, "true" if op == "next" else "false", minlen, maxlen)
+        covers = ["f.expect.is_none()", "f.expect.is_some() && f.loads == 0", "f.expect.is_some() && f.loads == 1"]
+        if LAYOUTS[layout][1] >= 2:
+            covers.append("f.expect.is_some() && f.loads >= 2")
+    elif op == "current":
+        call = "step_current(%s, %d, %d)" % (L, minlen, maxlen)
+        covers = ["f.i == 0", "f.i + 1 == f.n"]
+    else:
+        call = "step_clone(%s, %s, %d, %d)" % (L, "true" if op == "clonenext" else "false", minlen, maxlen)
+        covers = ["f.expect.is_some() && f.loads >= 1", "f.expect.is_none()"]
+    src = "glue_harness!(%s, %d, {\n    let f = %s;\n%s    let _ = &f;\n});\n" % (
+        name, unwind, call, "".join("    kani::cover!(%s);\n" % c for c in covers))
+    GEN_CURSOR.append((name, src))
+    HARNESSES.append(H("reader::reader_cursor::verif_h::" + name, props, tier=tier, mem=mem, timeout=timeout, kind="S", layer="L3",
+                       replay="native", mode="search", vec_order=["entries", "probe"] if is_abs else ["entries"],
+                       decides=("one `%s` from EVERY cursor state satisfying the representation invariant %s over %s: result = the entry the sorted "
+                                "content determines, post-state satisfies RI-strong, loads <= 2*(levels+2); with the base case (fresh cursor) this "
+                                "is an induction over histories of any length") % (
+                                    op, ("RI-weak (any block of the right level loaded at each level, any positions, recorded offsets truthful or "
+                                         "foreign, or fresh)" if weak else "RI-strong(i) for symbolic i, or fresh") if is_abs else "RI-strong(i), i symbolic",
+                                    LAYOUTS[layout][3]),
+                       functions=GLUE_FUNCS, stubs=GLUE_STUBS, layout=layout,
+                       assumes=["RI is the inductive invariant of the cursor state (its base case and every step are registered harnesses)"],
+                       bounds="layout fixed; keys symbolic %d..=%d bytes; probe symbolic 0..=%d bytes; file version symbolic" % (minlen, maxlen, probe_max)))
+    return name
+
+
+def GL(layout, cls, props, tier="quick", mem="light", timeout=1800, minlen=1, maxlen=1, probe_max=2, unwind=10, weak=False):
+    cname = ["hit", "back", "none"][cls]
+    name = "c02_lesplit_%s%s_%s_k%d%d_p%d" % (cname, "_weak" if weak else "", layout, minlen, maxlen, probe_max)
+    covers = [["f.expect == Some(0)", "f.expect == Some(f.n - 1)"],
+              ["f.expect.is_none()", "f.expect.is_some() && f.loads >= 1", "f.expect.is_some() && f.loads == 0"],
+              ["f.expect == Some(f.n - 1)"]][cls]
+    extra = contract_stubs(ge="some" if cls < 2 else ("none_weak" if weak else "none"))
+    src = "glue_harness_with!(%s, %d, %s, {\n    let f = le_split(%s, %d, %s, %d, %d, %d);\n%s    let _ = &f;\n});\n" % (
+        name, unwind, extra, LAYOUTS[layout][0], cls, "true" if weak else "false", minlen, maxlen, probe_max,
+        "".join("    kani::cover!(%s);\n" % c for c in covers))
+    GEN_CURSOR.append((name, src))
+    HARNESSES.append(H("reader::reader_cursor::verif_h::" + name, props, tier=tier, mem=mem, timeout=timeout, kind="S", layer="L3",
+                       replay="native", mode="search", vec_order=["entries", "probe"], layout=layout,
+                       decides="the real <= seek over the CONTRACT of the >= seek over %s, symbolic probe in the class `%s` (%s): returns the floor of "
+                               "the probe and leaves RI-strong; the three classes together cover every probe" % (
+                                   LAYOUTS[layout][3], cname, ["equal to a stored key", "a larger key exists but no equal one: step back from the ceiling",
+                                                               "above every key: last entry"][cls]),
+                       functions=["ReaderCursor::move_on_key_lower_than_or_equal_to", "ReaderCursor::move_on_prev", "ReaderCursor::move_on_last"] + GLUE_FUNCS,
+                       stubs=GLUE_STUBS + CONTRACT_STUBS[:1],
+                       assumes=["state left by a >= seek that found nothing: fresh, or RI-strong with the root level exhausted (quick) / any RI-weak state (_weak variants)"],
+                       bounds="keys symbolic %d..=%d bytes; probe symbolic 0..=%d bytes" % (minlen, maxlen, probe_max)))
+
+
+for _cls in (0, 1, 2):
+    GL("l2a", _cls, ["C02", "C03"], mem="medium" if _cls == 2 else "light")
+    GL("l0b", _cls, ["C02"], minlen=0, maxlen=2, probe_max=3, tier="quick" if _cls < 2 else "thorough", mem="medium" if _cls == 2 else "light")
+    for _lay in ("l2b", "l2c", "l3", "l1"):
+        GL(_lay, _cls, ["C02"], tier="thorough", mem="medium")
+GL("l2a", 2, ["C02"], tier="thorough", mem="heavy", timeout=3600, weak=True)
+
+QS = {"C03": "quick", "C16": "quick", "C10": "quick", "*": "thorough"}
+for _lay in ("l2a", "l2b", "l3", "l1", "l0b", "l2c"):
+    _q = QS if _lay == "l2a" else "thorough"
+    for _op in ("next", "prev", "current", "clonenext", "cloneprev"):
+        GS(_op, _lay, ["C03", "C16", "C10"], tier=_q)
+for _lay in ("l2a", "l1", "l0b"):
+    for _op in ("first", "last"):
+        GS(_op, _lay, ["C03", "C16", "C10"], mem="medium", tier={"C03": "quick", "*": "thorough"} if _lay == "l2a" else "thorough")
+    for _op in ("first", "last", "ge", "eq", "le"):
+        GS(_op, _lay, ["C03", "C16", "C10"] + (["C02"] if _op in ("ge", "eq", "le") else []), tier="thorough", mem="heavy", timeout=3600,
+           weak=True)
+
+
+def generate(kit_dst):
+    with open(os.path.join(kit_dst, "layout_gen.rs"), "w") as f:
+        f.write(layout_rust())
+    with open(os.path.join(kit_dst, "block_gen.rs"), "w") as f:
+        f.write("// generated by registry.py from LEN_PATTERNS\n" + "\n".join(GEN_BLOCK) + "\n")
+    with open(os.path.join(kit_dst, "layout_consts_gen.rs"), "w") as f:
+        for i, name in enumerate(LAYOUT_TREES):
+            f.write("#[allow(dead_code)]\npub(crate) const %s: u8 = %d;\n" % (LAYOUTS[name][0], i))
+    for fname, lst in (("range_gen.rs", GEN_RANGE), ("prefix_gen.rs", GEN_PREFIX)):
+        with open(os.path.join(kit_dst, fname), "w") as f:
+            f.write("// generated by registry.py\n")
+            for _, src in lst:
+                f.write(src)
+    with open(os.path.join(kit_dst, "cursor_gen.rs"), "w") as f:
+        f.write("// generated by registry.py from the schema table\n")
+        for _, src in GEN_CURSOR:
+            f.write(src)
+
 
 
 _REPLAYER_LOCK = __import__("threading").Lock()
@@ -155,23 +685,30 @@ def spec_from_vectors(h, vecs):
     lines = ["levels %d" % levels, "version %d" % h.get("version", 2), "interval %d" % h.get("interval", 1),
              "tree " + tree_str(tree)]
     kl = 2
-    for _ in range(n):
-        ln = usize()
-        kb = [byte() for _ in range(kl)]
-        lines.append("key " + _hexs(kb[:ln]))
-    nprobes = h.get("probes", 1)
-    for j in range(nprobes):
-        pb = [byte() for _ in range(3)]
-        ln = usize()
-        lines.append("probe%s %s" % ("" if j == 0 else "2", _hexs(pb[:ln])))
+    kinds, probes = [], []
+    for tok in h.get("vec_order", ["entries", "probe"]):
+        if tok == "entries":
+            for _ in range(n):
+                ln = usize()
+                kb = [byte() for _ in range(kl)]
+                lines.append("key " + _hexs(kb[:ln]))
+        elif tok == "kind":
+            kinds.append("UIE"[byte()])
+        elif tok == "probe":
+            pb = [byte() for _ in range(3)]
+            ln = usize()
+            probes.append(_hexs(pb[:ln]))
+    for j, pr in enumerate(probes):
+        lines.append("probe%s %s" % ("" if j == 0 else "2", pr))
     mode = h.get("mode", "cursor")
     if mode == "cursor":
         lines.append("ops " + " ".join(h["schema"]))
+    elif mode == "search":
+        if not probes:
+            lines.append("probe -")
+        lines.append("mode search 6")
     else:
-        extra = []
-        for name in h.get("mode_args", []):
-            extra.append(name if not name.startswith("@") else "UIE"[byte()])
-        lines.append("mode %s %s" % (mode, " ".join(extra)))
+        lines.append("mode %s %s" % (mode, " ".join(kinds)))
     return "\n".join(lines) + "\n"
 
 
@@ -270,172 +807,3 @@ if __name__ == "__main__":
     import sys
     json.dump(manifest(), open(os.path.join(os.path.dirname(__file__), "MANIFEST.json"), "w"), indent=1)
     print("MANIFEST.json written")
-
-
-# ------------------------------------------------------------------------------------------- L3 glue (generated harnesses)
-def D(*idx):
-    return ("D", list(idx))
-
-
-def I(*children):
-    return ("I", list(children))
-
-
-# name -> (levels, tree). Trees the real writer can produce: the root has <= 1 entry when levels >= 1, level 1 is a single
-# block, only levels >= 2 are split. Leaves D(..) list indices into the sorted entry table.
-LAYOUT_TREES = {
-    "e0": (0, I()),
-    "e2": (2, I()),
-    "l0s": (0, I(D(0))),
-    "l0a": (0, I(D(0, 1), D(2, 3))),
-    "l0b": (0, I(D(0), D(1, 2), D(3))),
-    "l1": (1, I(I(D(0, 1), D(2), D(3)))),
-    "l2a": (2, I(I(I(D(0, 1), D(2)), I(D(3, 4))))),
-    "l2b": (2, I(I(I(D(0)), I(D(1), D(2, 3))))),
-    "l2c": (2, I(I(I(D(0, 1)), I(D(2, 3)), I(D(4))))),
-    "l3": (3, I(I(I(I(D(0)), I(D(1))), I(I(D(2), D(3)))))),
-}
-
-
-def tree_str(t):
-    if t[0] == "D":
-        return "D(%s)" % ",".join(str(i) for i in t[1])
-    return "I(%s)" % ",".join(tree_str(c) for c in t[1])
-
-
-def tree_entries(t):
-    if t[0] == "D":
-        return list(t[1])
-    out = []
-    for c in t[1]:
-        out += tree_entries(c)
-    return out
-
-
-LAYOUTS = {}  # name -> (rust const, levels, n entries, description)
-for _i, (_name, (_lv, _tree)) in enumerate(LAYOUT_TREES.items()):
-    LAYOUTS[_name] = ("LAY_%s" % _name.upper(), _lv, len(tree_entries(_tree)), "levels %d: %s" % (_lv, tree_str(_tree)))
-
-
-def layout_rust():
-    """Rust source of the layout constants and build_layout(), generated from LAYOUT_TREES."""
-    out = ["// generated by registry.py from LAYOUT_TREES (the native replayer builds real files from the same trees)"]
-    for i, name in enumerate(LAYOUT_TREES):
-        out.append("pub(crate) const %s: u8 = %d; // %s" % (LAYOUTS[name][0], i, LAYOUTS[name][3]))
-    out.append("pub(crate) fn build_layout(id: u8, minlen: usize, maxlen: usize) -> Layout {")
-    out.append("    match id {")
-    names = list(LAYOUT_TREES)
-    for i, name in enumerate(names):
-        levels, tree = LAYOUT_TREES[name]
-        n = len(tree_entries(tree))
-        body = []
-        counter = [0]
-
-        def emit(t):
-            if t[0] == "D":
-                v = "b%d" % counter[0]
-                counter[0] += 1
-                idx = t[1]
-                assert idx == list(range(idx[0], idx[0] + len(idx)))
-                body.append("let %s = data_block(e + %d, %d);" % (v, idx[0], len(idx)))
-                return v
-            kids = [emit(c) for c in t[1]]
-            assert len(kids) <= 4
-            v = "b%d" % counter[0]
-            counter[0] += 1
-            body.append("let %s = index_block(&[%s], %d);" % (v, ", ".join(kids + ["0"] * (4 - len(kids))), len(kids)))
-            return v
-        root = emit(tree)
-        pat = "_" if i == len(names) - 1 else LAYOUTS[name][0]
-        out.append("        %s => {" % pat)
-        out.append("            let e = add_entries(%d, minlen, maxlen);" % n if n else "            let e = 0usize; let _ = (e, minlen, maxlen);")
-        out += ["            " + l for l in body]
-        out.append("            Layout { root: %s, levels: %d, n: %d }" % (root, levels, n))
-        out.append("        }")
-    out.append("    }")
-    out.append("}")
-    return "\n".join(out) + "\n"
-
-
-_OPRS = {"first": "Op::First", "last": "Op::Last", "next": "Op::Next", "prev": "Op::Prev", "reset": "Op::Reset",
-         "current": "Op::Current", "clone": "Op::CloneSwitch"}
-_FORK = {"first": "F_FIRST", "last": "F_LAST", "next": "F_NEXT", "prev": "F_PREV", "current": "F_CURRENT"}
-_ABBR = {"first": "F", "last": "L", "next": "n", "prev": "p", "reset": "R", "current": "c", "clone": "K"}
-
-
-def _op_rs(op):
-    if op in _OPRS:
-        return _OPRS[op]
-    kind, arg = op.split(":")
-    if kind == "fork":
-        return "Op::Fork(%s)" % _FORK[arg]
-    sel = "Q_SYM" if arg == "sym" else arg
-    return "Op::%s(%s)" % ({"ge": "Ge", "le": "Le", "eq": "Eq"}[kind], sel)
-
-
-def _op_abbr(op):
-    if op in _ABBR:
-        return _ABBR[op]
-    kind, arg = op.split(":")
-    if kind == "fork":
-        return "Y" + _ABBR[arg]
-    return {"ge": "G", "le": "E", "eq": "Q"}[kind] + ("s" if arg == "sym" else arg)
-
-
-def schema_harness(prefix, layout, ops, minlen=1, maxlen=1, probe_max=2, unwind=None):
-    """-> (fn name, rust source)"""
-    name = "%s_%s_%s" % (prefix, layout, "".join(_op_abbr(o) for o in ops))
-    const, levels, n, _ = LAYOUTS[layout]
-    if unwind is None:
-        unwind = max(9, len(ops) + 2)  # MAXE + 1 = 9 for the table loops; ops loop
-    src = "glue_harness!(%s, %d, {\n    let ops = [%s];\n    run_schema(%s, &ops, %d, %d, %d);\n});\n" % (
-        name, unwind, ", ".join(_op_rs(o) for o in ops), const, minlen, maxlen, probe_max)
-    return name, src
-
-
-GLUE_FUNCS = ["ReaderCursor::new/reset/current/move_on_first/move_on_last/move_on_next/move_on_prev",
-              "ReaderCursor::move_on_key_greater_than_or_equal_to/_lower_than_or_equal_to/_equal_to",
-              "ReaderCursor::next_block_from_index/prev_block_from_index", "IndexBlockCursor::iter_index_blocks",
-              "IndexBlockCursor::recursive_index_block", "IndexBlockCursor::initial_index_blocks", "Clone for ReaderCursor",
-              "Reader::into_cursor"]
-GLUE_STUBS = ["Block::new -> ac_block_new (abstract block = id; discharged by block::verif_h::c01_block_new_*)",
-              "BlockCursor::{current,move_on_first,move_on_last,move_on_next,move_on_prev,move_on_key_lower_than_or_equal_to,"
-              "move_on_key_greater_than_or_equal_to} -> array-cursor model ac_step (discharged against the real BlockCursor over "
-              "real blocks by block::verif_h::c0{2,3}_block_*)",
-              "source = ModelFile (Read+Seek returning the seek position; counts loads/seeks)"]
-
-GEN_CURSOR = []  # (fn name, source)
-
-
-def G(prefix, layout, ops, props, tier="quick", mem="light", timeout=1500, **kw):
-    name, src = schema_harness(prefix, layout, ops, **{k: kw.pop(k) for k in ("minlen", "maxlen", "probe_max", "unwind") if k in kw})
-    GEN_CURSOR.append((name, src))
-    HARNESSES.append(H("reader::reader_cursor::verif_h::" + name, props, tier=tier, mem=mem, timeout=timeout, kind="H", layer="L3",
-                       replay="native",
-                       decides="history [%s] on a fresh cursor over %s: every result equals the entry determined by the sorted content "
-                               "and the logical position; loads per op <= 2*(levels+2), each preceded by one absolute seek" % (
-                                   ", ".join(ops), LAYOUTS[layout][3]),
-                       functions=GLUE_FUNCS, stubs=GLUE_STUBS, schema=ops, layout=layout,
-                       bounds="layout fixed (fan-out <= 3, <= 2 entries per data block), keys symbolic 1 byte strictly ascending, "
-                              "one symbolic probe of length 0..=2; unwind from table size", **kw))
-    return name
-
-
-# C03 quick family: the block-crossing patterns on layouts with two blocks at a non-root level
-G("c03_hist", "l2a", ["first", "first", "next", "next", "next", "current", "first", "current"], ["C03", "C16"])
-G("c03_hist", "l2a", ["last", "last", "prev", "prev", "current", "last"], ["C03", "C16"])
-G("c03_hist", "l2a", ["first", "next", "next", "next", "first", "ge:4"], ["C03", "C16"])
-G("c03_hist", "l2a", ["last", "prev", "prev", "last", "le:0"], ["C03", "C16"])
-G("c03_hist", "l2a", ["first", "next", "next", "next", "ge:sym"], ["C03", "C02", "C16"])
-G("c03_hist", "l2a", ["last", "prev", "prev", "le:sym"], ["C03", "C02", "C16"])
-G("c03_hist", "l2a", ["first", "next", "clone", "next", "next", "fork:next"], ["C03", "C16"])
-G("c03_hist", "l2a", ["last", "clone", "prev", "prev", "fork:prev", "reset", "next"], ["C03", "C16"])
-
-
-def generate(kit_dst):
-    with open(os.path.join(kit_dst, "layout_gen.rs"), "w") as f:
-        f.write(layout_rust())
-    with open(os.path.join(kit_dst, "cursor_gen.rs"), "w") as f:
-        f.write("// generated by registry.py from the schema table\n")
-        for _, src in GEN_CURSOR:
-            f.write(src)
